@@ -230,11 +230,14 @@ def equations(year):
         out += [
             same_in(ncw, "1", "out_of_state_purchases_pre_oct", "Use tax worksheet (2022) 1. Purchases before October 1 on which no N.C. tax was paid"),
             same_in(ncw, "3", "out_of_state_purchases_post_oct", "Use tax worksheet (2022) 3. Purchases from October 1 on which no N.C. tax was paid"),
+            E(ncw, "2", "mull", ["1", "in:county_tax_pct_pre_oct"], cite="Use tax worksheet (2022) 2. Multiply line 1 by the tax rate of your county"),
+            E(ncw, "4", "mull", ["3", "in:county_tax_pct_post_oct"], cite="Use tax worksheet (2022) 4. Multiply line 3 by the tax rate of your county"),
             E(ncw, "consumer_use_tax", "same", ["6"], cond="in:full_records", condis=1, cite="D-400 line 18 instructions: with complete records, the use tax computed on the worksheet"),
         ]
     else:
         out += [
             same_in(ncw, "1", "out_of_state_purchases", "Use tax worksheet 1. Purchases on which no N.C. tax was paid"),
+            E(ncw, "2", "mull", ["1", "in:county_tax_pct"], cite="Use tax worksheet 2. Multiply line 1 by the tax rate of your county"),
             E(ncw, "3", "min", ["in:other_state_sales_tax", "2"], tol=50, cite="Use tax worksheet 3. Tax paid to another state, not more than the N.C. tax on line 2"),
             E(ncw, "4", "sub", ["3", "2"], exact_sub=True, cite="Use tax worksheet 4. Subtract line 3 from line 2"),
             E(ncw, "consumer_use_tax", "same", ["4"], cond="in:full_records", condis=1, cite="D-400 line 18 instructions: with complete records, the use tax computed on the worksheet"),
